@@ -167,6 +167,8 @@ class AioImpl:
                 c = o[1] if k == "ASCHED" else o[2]
                 durs, pre, post, sync = (o[2], o[3], o[4], o[5]) if k == "ASCHED" else (o[3], o[4], o[5], o[6])
                 coro = self.make_coro(jid, c, durs, pre, post, sync)
+                if c.get("bound"):
+                    coro = core.Holder(sch, coro).call
                 kw = dict(max_attempts=c["max"], tags={tagname(t) for t in c["tags"]}, skip_missing=c["skip"],
                           args=tuple(core.Val(a) for a in c["args"]) if c["args"] else None,
                           kwargs={"k%d" % kk: core.Val(v) for kk, v in c["kwargs"]} if c["kwargs"] else None)
